@@ -369,6 +369,18 @@ func (s *Sess) Do(o Op) error {
 			_ = before
 		}
 		return fmt.Errorf("drain: scan %d does not terminate", o.S)
+	case "open2":
+		// a competing Open while the database is open must fail with "locked" and change nothing
+		before := strings.Join(ListDir(s.Root, s.Dir), ",")
+		Logs.push()
+		db2, err := pogreb.Open(s.Dir, s.Cfg.Options(s.Root))
+		Logs.pop()
+		after := strings.Join(ListDir(s.Root, s.Dir), ",")
+		s.R.Emit(Ev{"e": "open_locked", "ok": err == nil, "ek": ErrKind(err), "err": errStr(err), "before": before, "after": after})
+		if db2 != nil {
+			db2.Close()
+		}
+		return nil
 	case "backup_open":
 		db2, obs := OpenObserved(s.Cfg, s.Root, o.Dir, s.Universe)
 		ev := obs.Event("backup_opened")
